@@ -596,6 +596,13 @@ func (ui *uInterp) constant(k *types.Const) *uval {
 		us, lit := literalUnits(f, true)
 		return &uval{units: us, lo: f, hi: f, lit: lit}
 	}
+	if k.Val().Kind() == constant.Bool {
+		f := 0.0
+		if constant.BoolVal(k.Val()) {
+			f = 1
+		}
+		return &uval{units: []unit{uOne}, lo: f, hi: f, lit: true}
+	}
 	return uTop()
 }
 
@@ -1097,6 +1104,35 @@ func (ui *uInterp) stmt(env *uEnv, st ast.Stmt, results []types.Object, holder *
 	case *ast.SwitchStmt:
 		if s.Init != nil {
 			env = ui.stmt(env, s.Init, results, holder)
+		}
+		if s.Tag == nil {
+			// a tagless switch is an if / else-if chain
+			var chain ast.Stmt
+			var def *ast.CaseClause
+			var clauses []*ast.CaseClause
+			for _, cl := range s.Body.List {
+				cc := cl.(*ast.CaseClause)
+				if cc.List == nil {
+					def = cc
+				} else {
+					clauses = append(clauses, cc)
+				}
+			}
+			if def != nil {
+				chain = &ast.BlockStmt{List: def.Body}
+			}
+			for i := len(clauses) - 1; i >= 0; i-- {
+				cc := clauses[i]
+				cond := cc.List[0]
+				for _, e := range cc.List[1:] {
+					cond = &ast.BinaryExpr{X: cond, Op: token.LOR, Y: e}
+				}
+				chain = &ast.IfStmt{Cond: cond, Body: &ast.BlockStmt{List: cc.Body}, Else: chain}
+			}
+			if chain != nil {
+				return ui.stmt(env, chain, results, holder)
+			}
+			return env
 		}
 		var acc *uEnv
 		for _, cl := range s.Body.List {
